@@ -61,162 +61,237 @@ def fn_body(src, name):
     return src[m.end():i - 1]
 
 
-def extract(repo):
+def extract_facts(repo):
+    """every fact on its own: a fact whose code shape is not recognised is `None` and its name is in the second result
+    (`unrecognised`); the other facts are still extracted"""
     lexer = rd(repo, "src/frontend/lexer.rs")
     parser = rd(repo, "src/frontend/parser.rs")
     interp = rd(repo, "src/backend/interpreter.rs")
     builtins = rd(repo, "src/backend/built_ins.rs")
     f = {}
+    missing = []
 
-    kw = re.findall(r'keyword_map\.insert\("([^"]+)"\.chars\(\)\.collect\(\), TokenKind::(\w+(?:\((?:true|false)\))?)\);', fn_body(lexer, "keyword"))
-    if not kw:
-        raise Unrecognised("keyword table")
-    f["keywords"] = [(w, TK[k]) for w, k in kw]
+    def fact(names, what, fn):
+        try:
+            vals = fn()
+        except Unrecognised:
+            vals = None
+        except Exception:
+            vals = None
+        if vals is None:
+            missing.append(what)
+            for n in names:
+                f[n] = None
+        else:
+            for n, v in zip(names, vals):
+                f[n] = v
 
-    cons = fn_body(lexer, "consume")
-    simple = re.findall(r"'(\\?.)' => \{\s*consumed_char = 1;\s*consumed_line = 0;\s*token = Token \{\s*kind: TokenKind::(\w+),", cons)
-    if len(simple) < 10:
-        raise Unrecognised("single-character token arms")
-    f["simple"] = [(unescape_char(c), TK[k]) for c, k in simple]
-    two = re.findall(r"'(.)' => \{\s*if start \+ 1 < src\.len\(\) && src\[start\+1\] == '(.)' \{\s*consumed_char = 2;.*?kind: TokenKind::(\w+),.*?\} else \{\s*consumed_char = 1;.*?kind: TokenKind::(\w+),", cons, flags=re.S)
-    if len(two) != 4:
-        raise Unrecognised("two-character look-ahead arms")
-    f["two"] = [(c, d, TK[k2], TK[k1]) for c, d, k2, k1 in two]
-    m = re.search(r"if start \+ 1 < src\.len\(\) && src\[start\+1\] == '>' \{.*?kind: TokenKind::(\w+),.*?\} else \{.*?kind: TokenKind::(\w+),", cons, flags=re.S)
-    if not m:
-        raise Unrecognised("'-' arm")
-    f["minus"] = (TK[m.group(1)], TK[m.group(2)])
-    m = re.search(r"((?:'\\?.'\s*\|\s*)+'\\?.') => \{\s*consumed_char = 1;\s*consumed_line = 0;\s*return Ok\(\(None", cons)
-    if not m:
-        raise Unrecognised("blank arm")
-    f["blanks"] = [unescape_char(c) for c in re.findall(r"'(\\?.)'", m.group(1))]
-    m = re.search(r"let after_operand = match tokens\.last\(\) \{.*?Some\(last\) => match last\.kind \{(.*?)=> true", lexer, flags=re.S)
-    if not m:
-        raise Unrecognised("after_operand")
-    f["after_operand"] = re.findall(r"TokenKind::(\w+)", m.group(1))
-    m = re.search(r"if c == '(.)' \|\| c == '(.)' \|\| c == '(.)' \{\s*return true;\s*\}\s*!c\.is_ascii_whitespace\(\) && !c\.is_ascii_punctuation\(\) && !c\.is_ascii_control\(\)", fn_body(lexer, "is_valid_identifier_char"))
-    if not m:
-        raise Unrecognised("identifier character class")
-    f["ident_extra"] = list(m.groups())
+    def keywords():
+        kw = re.findall(r'keyword_map\.insert\("([^"]+)"\.chars\(\)\.collect\(\), TokenKind::(\w+(?:\((?:true|false)\))?)\);', fn_body(lexer, "keyword"))
+        if not kw:
+            raise Unrecognised("keyword table")
+        return ([(w, TK[k]) for w, k in kw],)
+    fact(["keywords"], "keyword table", keywords)
 
-    d1 = re.findall(r"'(.)' => return Ok\((\d)\.0\)", fn_body(lexer, "bn_digit_to_en_digit"))
-    d2 = re.findall(r"'(.)' => '(\d)'", fn_body(builtins, "bn_digit_to_en_digit"))
-    d3 = re.findall(r"'(\d)' => '(.)'", fn_body(builtins, "en_digit_to_bn_digit"))
-    d4 = re.findall(r"'(.)' => bangla_num_string\.push\('(.)'\)", fn_body(interp, "to_bn_num"))
-    if not (len(d1) == len(d2) == len(d3) == 10 and len(d4) == 12):
-        raise Unrecognised("digit tables")
-    f["digits_lexer"] = [(c, int(v)) for c, v in d1]
-    f["digits_bn_en"] = d2
-    f["digits_en_bn"] = d3
-    f["digits_print"] = d4
+    def cons():
+        return fn_body(lexer, "consume")
 
-    m = re.search(r"let function_list = vec!\[(.*?)\];", builtins, flags=re.S)
-    if not m:
-        raise Unrecognised("built-in name list")
-    f["builtins"] = re.findall(r'"([^"]+)"', m.group(1))
-    ty = re.findall(r'DataType::(\w+)(?:\(_\))? => DataType::String\(String::from\("([^"]+)"\)\)', fn_body(builtins, "_type"))
-    if len(ty) != 7:
-        raise Unrecognised("type names")
-    f["types"] = ty
-    m = re.search(r"if self\.total_allocated_object_count >= (\d+) \{", fn_body(interp, "run"))
-    if not m:
-        raise Unrecognised("collection threshold")
-    f["threshold"] = int(m.group(1))
-    m = re.search(r'root_scope\.insert\("([^"]+)"\.to_string\(\)', interp)
-    f["platform_const"] = m.group(1) if m else None
-    m = re.search(r'if var_name\s*== "([^"]+)"\.to_string\(\)', fn_body(parser, "is_dirname_constant"))
-    f["dirname_const"] = m.group(1) if m else None
-    if not f["platform_const"] or not f["dirname_const"]:
-        raise Unrecognised("built-in constants")
-    m = re.search(r'if token\.lexeme\.iter\(\)\.collect::<String>\(\) == "([^"]+)"', fn_body(parser, "prepend_with_import_name"))
-    f["platform_not_renamed"] = m.group(1) if m else ""
-    bools = re.findall(r'(true|false) => "([^"]+)"\.to_string\(\)', fn_body(interp, "to_bn_bool"))
-    if len(bools) != 2:
-        raise Unrecognised("boolean words")
-    f["bools"] = bools
+    def simple():
+        x = re.findall(r"'(\\?.)' => \{\s*consumed_char = 1;\s*consumed_line = 0;\s*token = Token \{\s*kind: TokenKind::(\w+),", cons())
+        if len(x) < 10:
+            raise Unrecognised("single-character token arms")
+        return ([(unescape_char(c), TK[k]) for c, k in x],)
+    fact(["simple"], "single-character token arms", simple)
 
-    ladder = []
-    order = ["or", "and", "equality", "comparison", "addition", "multiplication"]
-    for name in order:
-        body = fn_body(parser, name)
-        m = re.search(r"let mut expr = self\.(\w+)\(\)\?;", body)
-        w = re.search(r"while (.*?)\{", body, flags=re.S)
-        c = re.search(r"expr = Expr::(\w+)\(", body)
-        r = re.search(r"let right = self\.(\w+)\(\)\?;", body)
-        if not (m and w and c and r) or m.group(1) != r.group(1):
-            raise Unrecognised(f"ladder level {name}")
-        ops = re.findall(r"TokenKind::\s*(\w+)", w.group(1))
-        ladder.append((name, [TK[o] for o in ops], m.group(1), c.group(1)))
-    f["ladder"] = ladder
-    m = re.search(r"fn expression\(&mut self\)[^{]*\{\s*self\.(\w+)\(\)", parser)
-    f["expression_entry"] = m.group(1) if m else None
-    ub = fn_body(parser, "unary")
-    f["unary_ops"] = [TK[o] for o in re.findall(r"== TokenKind::(\w+)", ub)]
-    m = re.search(r"return self\.(\w+)\(\);", ub)
-    f["unary_next"] = m.group(1) if m else None
+    def two():
+        x = re.findall(r"'(.)' => \{\s*if start \+ 1 < src\.len\(\) && src\[start\+1\] == '(.)' \{\s*consumed_char = 2;.*?kind: TokenKind::(\w+),.*?\} else \{\s*consumed_char = 1;.*?kind: TokenKind::(\w+),", cons(), flags=re.S)
+        if len(x) != 4:
+            raise Unrecognised("two-character look-ahead arms")
+        return ([(c, d, TK[k2], TK[k1]) for c, d, k2, k1 in x],)
+    fact(["two"], "two-character look-ahead arms", two)
+
+    def minus():
+        m = re.search(r"if start \+ 1 < src\.len\(\) && src\[start\+1\] == '>' \{.*?kind: TokenKind::(\w+),.*?\} else \{.*?kind: TokenKind::(\w+),", cons(), flags=re.S)
+        if not m:
+            raise Unrecognised("'-' arm")
+        return ((TK[m.group(1)], TK[m.group(2)]),)
+    fact(["minus"], "'-' arm", minus)
+
+    def blanks():
+        m = re.search(r"((?:'\\?.'\s*\|\s*)+'\\?.') => \{\s*consumed_char = 1;\s*consumed_line = 0;\s*return Ok\(\(None", cons())
+        if not m:
+            raise Unrecognised("blank arm")
+        return ([unescape_char(c) for c in re.findall(r"'(\\?.)'", m.group(1))],)
+    fact(["blanks"], "blank arm", blanks)
+
+    def after_operand():
+        m = re.search(r"let after_operand = match tokens\.last\(\) \{.*?Some\(last\) => match last\.kind \{(.*?)=> true", lexer, flags=re.S)
+        if not m:
+            raise Unrecognised("after_operand")
+        return (re.findall(r"TokenKind::(\w+)", m.group(1)),)
+    fact(["after_operand"], "after_operand", after_operand)
+
+    def ident_extra():
+        m = re.search(r"if c == '(.)' \|\| c == '(.)' \|\| c == '(.)' \{\s*return true;\s*\}\s*!c\.is_ascii_whitespace\(\) && !c\.is_ascii_punctuation\(\) && !c\.is_ascii_control\(\)", fn_body(lexer, "is_valid_identifier_char"))
+        if not m:
+            raise Unrecognised("identifier character class")
+        return (list(m.groups()),)
+    fact(["ident_extra"], "identifier character class", ident_extra)
+
+    def digits():
+        d1 = re.findall(r"'(.)' => return Ok\((\d)\.0\)", fn_body(lexer, "bn_digit_to_en_digit"))
+        d2 = re.findall(r"'(.)' => '(\d)'", fn_body(builtins, "bn_digit_to_en_digit"))
+        d3 = re.findall(r"'(\d)' => '(.)'", fn_body(builtins, "en_digit_to_bn_digit"))
+        d4 = re.findall(r"'(.)' => bangla_num_string\.push\('(.)'\)", fn_body(interp, "to_bn_num"))
+        if not (len(d1) == len(d2) == len(d3) == 10 and len(d4) == 12):
+            raise Unrecognised("digit tables")
+        return ([(c, int(v)) for c, v in d1], d2, d3, d4)
+    fact(["digits_lexer", "digits_bn_en", "digits_en_bn", "digits_print"], "digit tables", digits)
+
+    def builtin_names():
+        m = re.search(r"let function_list = vec!\[(.*?)\];", builtins, flags=re.S)
+        if not m:
+            raise Unrecognised("built-in name list")
+        return (re.findall(r'"([^"]+)"', m.group(1)),)
+    fact(["builtins"], "built-in name list", builtin_names)
+
+    def types():
+        ty = re.findall(r'DataType::(\w+)(?:\(_\))? => DataType::String\(String::from\("([^"]+)"\)\)', fn_body(builtins, "_type"))
+        if len(ty) != 7:
+            raise Unrecognised("type names")
+        return (ty,)
+    fact(["types"], "type names", types)
+
+    def threshold():
+        m = re.search(r"if self\.total_allocated_object_count >= (\d+) \{", fn_body(interp, "run"))
+        if not m:
+            raise Unrecognised("collection threshold")
+        return (int(m.group(1)),)
+    fact(["threshold"], "collection threshold", threshold)
+
+    def constants():
+        m1 = re.search(r'root_scope\.insert\("([^"]+)"\.to_string\(\)', interp)
+        m2 = re.search(r'if var_name\s*== "([^"]+)"\.to_string\(\)', fn_body(parser, "is_dirname_constant"))
+        if not m1 or not m2:
+            raise Unrecognised("built-in constants")
+        m3 = re.search(r'if token\.lexeme\.iter\(\)\.collect::<String>\(\) == "([^"]+)"', fn_body(parser, "prepend_with_import_name"))
+        return (m1.group(1), m2.group(1), m3.group(1) if m3 else "")
+    fact(["platform_const", "dirname_const", "platform_not_renamed"], "built-in constants", constants)
+
+    def bools():
+        b = re.findall(r'(true|false) => "([^"]+)"\.to_string\(\)', fn_body(interp, "to_bn_bool"))
+        if len(b) != 2:
+            raise Unrecognised("boolean words")
+        return (b,)
+    fact(["bools"], "boolean words", bools)
+
+    def ladder_():
+        ladder = []
+        order = ["or", "and", "equality", "comparison", "addition", "multiplication"]
+        for name in order:
+            body = fn_body(parser, name)
+            m = re.search(r"let mut expr = self\.(\w+)\(\)\?;", body)
+            w = re.search(r"while (.*?)\{", body, flags=re.S)
+            c = re.search(r"expr = Expr::(\w+)\(", body)
+            r = re.search(r"let right = self\.(\w+)\(\)\?;", body)
+            if not (m and w and c and r) or m.group(1) != r.group(1):
+                raise Unrecognised(f"ladder level {name}")
+            ops = re.findall(r"TokenKind::\s*(\w+)", w.group(1))
+            ladder.append((name, [TK[o] for o in ops], m.group(1), c.group(1)))
+        m = re.search(r"fn expression\(&mut self\)[^{]*\{\s*self\.(\w+)\(\)", parser)
+        ub = fn_body(parser, "unary")
+        m2 = re.search(r"return self\.(\w+)\(\);", ub)
+        return (ladder, m.group(1) if m else None, [TK[o] for o in re.findall(r"== TokenKind::(\w+)", ub)], m2.group(1) if m2 else None)
+    fact(["ladder", "expression_entry", "unary_ops", "unary_next"], "precedence ladder", ladder_)
+    return f, missing
+
+
+def extract(repo):
+    """all facts, or `Unrecognised` (used where every fact is needed: tools/mkwords.py)"""
+    f, missing = extract_facts(repo)
+    if missing:
+        raise Unrecognised(", ".join(missing))
     return f
 
 
 CTOR_LEVEL = {"Or": 0, "And": 1, "Equality": 2, "Comparison": 3, "AddOrSub": 4, "MulOrDivOrRemainder": 5}
 
 
+def opt(v, render):
+    return "none" if v is None else "some (" + render(v) + ")"
+
+
 def lean_of(f):
+    """every table as an `Option`: `none` = the code shape was not recognised on this run (the agreement theorem is then
+    vacuous for that table and the tie rests on the correspondence runs; the check prints a NOTE)"""
     o = ["/- GENERATED on every run by tools/srcfacts.py from /repo's Rust source.  Do not edit. -/",
          "import Pakhi.Model.Lexer", "", "namespace Pakhi", "namespace Generated", ""]
-    o.append("def keywords : List (List Nat × TK) := [" + ", ".join(f"({chars(w)}, {k})" for w, k in f["keywords"]) + "]")
-    o.append("def simpleToks : List (Nat × TK) := [" + ", ".join(f"({ord(c)}, {k})" for c, k in f["simple"]) + "]")
-    o.append("def twoCharToks : List (Nat × Nat × TK × TK) := [" + ", ".join(f"({ord(c)}, {ord(d)}, {k2}, {k1})" for c, d, k2, k1 in f["two"]) + "]")
-    o.append(f"def minusArm : TK × TK := ({f['minus'][0]}, {f['minus'][1]})")
-    o.append("def blanks : List Nat := [" + ", ".join(str(ord(c)) for c in f["blanks"]) + "]")
+    lst = lambda items: "[" + ", ".join(items) + "]"
+    o.append("def keywords : Option (List (List Nat × TK)) := " + opt(f["keywords"], lambda v: lst(f"({chars(w)}, {k})" for w, k in v)))
+    o.append("def simpleToks : Option (List (Nat × TK)) := " + opt(f["simple"], lambda v: lst(f"({ord(c)}, {k})" for c, k in v)))
+    o.append("def twoCharToks : Option (List (Nat × Nat × TK × TK)) := " + opt(f["two"], lambda v: lst(f"({ord(c)}, {ord(d)}, {k2}, {k1})" for c, d, k2, k1 in v)))
+    o.append("def minusArm : Option (TK × TK) := " + opt(f["minus"], lambda v: f"({v[0]}, {v[1]})"))
+    o.append("def blanks : Option (List Nat) := " + opt(f["blanks"], lambda v: lst(str(ord(c)) for c in v)))
     pat = {"Num": ".num _", "String": ".str _", "Bool": ".bool _"}
-    o.append("def afterOperand : TK → Bool")
-    for k in f["after_operand"]:
-        o.append(f"  | {pat.get(k) or TK[k]} => true")
-    o.append("  | _ => false")
-    o.append("def identExtra : List Nat := [" + ", ".join(str(ord(c)) for c in f["ident_extra"]) + "]")
-    o.append("def digitsLexer : List (Nat × Nat) := [" + ", ".join(f"({ord(c)}, {v})" for c, v in f["digits_lexer"]) + "]")
-    o.append("def digitsBnEn : List (Nat × Nat) := [" + ", ".join(f"({ord(c)}, {ord(v)})" for c, v in f["digits_bn_en"]) + "]")
-    o.append("def digitsEnBn : List (Nat × Nat) := [" + ", ".join(f"({ord(c)}, {ord(v)})" for c, v in f["digits_en_bn"]) + "]")
-    o.append("def digitsPrint : List (Nat × Nat) := [" + ", ".join(f"({ord(c)}, {ord(v)})" for c, v in f["digits_print"]) + "]")
-    o.append("def builtins : List (List Nat) := [" + ", ".join(chars(w) for w in f["builtins"]) + "]")
+    if f["after_operand"] is None:
+        o.append("def afterOperand : Option (TK → Bool) := none")
+    else:
+        o.append("def afterOperandFn : TK → Bool")
+        for k in f["after_operand"]:
+            o.append(f"  | {pat.get(k) or TK[k]} => true")
+        o.append("  | _ => false")
+        o.append("def afterOperand : Option (TK → Bool) := some afterOperandFn")
+    o.append("def identExtra : Option (List Nat) := " + opt(f["ident_extra"], lambda v: lst(str(ord(c)) for c in v)))
+    o.append("def digitsLexer : Option (List (Nat × Nat)) := " + opt(f["digits_lexer"], lambda v: lst(f"({ord(c)}, {x})" for c, x in v)))
+    o.append("def digitsBnEn : Option (List (Nat × Nat)) := " + opt(f["digits_bn_en"], lambda v: lst(f"({ord(c)}, {ord(x)})" for c, x in v)))
+    o.append("def digitsEnBn : Option (List (Nat × Nat)) := " + opt(f["digits_en_bn"], lambda v: lst(f"({ord(c)}, {ord(x)})" for c, x in v)))
+    o.append("def digitsPrint : Option (List (Nat × Nat)) := " + opt(f["digits_print"], lambda v: lst(f"({ord(c)}, {ord(x)})" for c, x in v)))
+    o.append("def builtins : Option (List (List Nat)) := " + opt(f["builtins"], lambda v: lst(chars(w) for w in v)))
     tyi = {"Num": 0, "Bool": 1, "String": 2, "List": 3, "NamelessRecord": 4, "Function": 5, "Nil": 6}
     o.append("/-- (index of the `DataType` variant in declaration order, name) -/")
-    o.append("def typeNames : List (Nat × List Nat) := [" + ", ".join(f'({tyi.get(t, 99)}, {chars(w)})' for t, w in f["types"]) + "]")
-    o.append(f"def gcThreshold : Nat := {f['threshold']}")
-    o.append(f"def platformConst : List Nat := {chars(f['platform_const'])}")
-    o.append(f"def platformNotRenamed : List Nat := {chars(f['platform_not_renamed'])}")
-    o.append(f"def dirnameConst : List Nat := {chars(f['dirname_const'])}")
-    o.append("def boolWords : List (Bool × List Nat) := [" + ", ".join(f"({b}, {chars(w)})" for b, w in f["bools"]) + "]")
-    names = [l[0] for l in f["ladder"]] + ["unary"]
-    rows = []
-    for i, (name, ops, nxt, ctor) in enumerate(f["ladder"]):
-        nxt_i = names.index(nxt) if nxt in names else 99
-        rows.append(f"({i}, [{', '.join(ops)}], {nxt_i}, {CTOR_LEVEL.get(ctor, 99)})")
+    o.append("def typeNames : Option (List (Nat × List Nat)) := " + opt(f["types"], lambda v: lst(f'({tyi.get(t, 99)}, {chars(w)})' for t, w in v)))
+    o.append("def gcThreshold : Option Nat := " + opt(f["threshold"], str))
+    o.append("def platformConst : Option (List Nat) := " + opt(f["platform_const"], chars))
+    o.append("def platformNotRenamed : Option (List Nat) := " + opt(f["platform_not_renamed"], chars))
+    o.append("def dirnameConst : Option (List Nat) := " + opt(f["dirname_const"], chars))
+    o.append("def boolWords : Option (List (Bool × List Nat)) := " + opt(f["bools"], lambda v: lst(f"({b}, {chars(w)})" for b, w in v)))
     o.append("/-- (level, operators, level of the operand parser, level of the AST constructor) -/")
-    o.append("def ladder : List (Nat × List TK × Nat × Nat) := [" + ", ".join(rows) + "]")
-    o.append(f"def expressionEntry : Nat := {names.index(f['expression_entry']) if f['expression_entry'] in names else 99}")
-    o.append("def unaryOps : List TK := [" + ", ".join(f["unary_ops"]) + "]")
-    o.append(f"/-- 1 iff `unary()` falls through to `call()` -/")
-    o.append(f'def unaryNextIsCall : Nat := {1 if f["unary_next"] == "call" else 0}')
+    if f["ladder"] is None:
+        o.append("def ladder : Option (List (Nat × List TK × Nat × Nat)) := none")
+        o.append("def expressionEntry : Option Nat := none")
+        o.append("def unaryOps : Option (List TK) := none")
+        o.append("def unaryNextIsCall : Option Nat := none")
+    else:
+        names = [l[0] for l in f["ladder"]] + ["unary"]
+        rows = []
+        for i, (name, ops, nxt, ctor) in enumerate(f["ladder"]):
+            nxt_i = names.index(nxt) if nxt in names else 99
+            rows.append(f"({i}, [{', '.join(ops)}], {nxt_i}, {CTOR_LEVEL.get(ctor, 99)})")
+        o.append("def ladder : Option (List (Nat × List TK × Nat × Nat)) := some [" + ", ".join(rows) + "]")
+        o.append(f"def expressionEntry : Option Nat := some {names.index(f['expression_entry']) if f['expression_entry'] in names else 99}")
+        o.append("def unaryOps : Option (List TK) := some [" + ", ".join(f["unary_ops"]) + "]")
+        o.append("/-- 1 iff `unary()` falls through to `call()` -/")
+        o.append(f'def unaryNextIsCall : Option Nat := some {1 if f["unary_next"] == "call" else 0}')
     o += ["", "end Generated", "end Pakhi", ""]
     return "\n".join(o)
 
 
 def generate(repo, out_path):
+    """returns (ok, message, unrecognised): ok is False only when the source cannot be read at all; facts whose code shape
+    is not recognised are generated as `none` and listed in `unrecognised`"""
     try:
-        txt = lean_of(extract(repo))
-    except Unrecognised as e:
-        return False, f"shape not recognised: {e}"
+        f, missing = extract_facts(repo)
+        txt = lean_of(f)
     except Exception as e:  # a source file is missing or unreadable
-        return False, f"extraction failed: {e!r}"
+        return False, f"extraction failed: {e!r}", []
     old = open(out_path, encoding="utf-8").read() if os.path.exists(out_path) else None
     if old != txt:
         os.makedirs(os.path.dirname(out_path), exist_ok=True)
         open(out_path, "w", encoding="utf-8").write(txt)
-    return True, ""
+    return True, "", missing
 
 
 if __name__ == "__main__":
-    ok, msg = generate(sys.argv[1] if len(sys.argv) > 1 else "/repo",
-                       os.path.join(os.path.dirname(os.path.dirname(os.path.abspath(__file__))), "lean", "Pakhi", "Generated", "SrcFacts.lean"))
-    print("ok" if ok else msg)
+    ok, msg, missing = generate(sys.argv[1] if len(sys.argv) > 1 else "/repo",
+                                os.path.join(os.path.dirname(os.path.dirname(os.path.abspath(__file__))), "lean", "Pakhi", "Generated", "SrcFacts.lean"))
+    print(("ok" + (" (not recognised: " + ", ".join(missing) + ")" if missing else "")) if ok else msg)
